@@ -38,6 +38,32 @@ from lib import Prop, SkipCase
 lib.setup_repo_import()
 
 SYMS = ["a", "b", "c", "d", "e", "f", "g", "h"]
+# IDENTIFIER SPELLINGS. The property speaks of "a symbol": the name is an arbitrary non-empty string chosen by the
+# caller (numbered couplings J, J1, J11; g, gg; x_1 ...). SPELL_ALPHS are tiny character alphabets; the symbol names
+# of a "spelling" matrix are the strings of length 1..3 over ONE of them (names that are prefixes, suffixes, repetitions
+# and concatenations of each other), except the strings made of digits only (those read as numbers, not as symbols).
+# The names are appended to SYMS (the numbering symbol name <-> nat of the model tie; the old numbers are unchanged).
+SPELL_ALPHS = ["g", "g1", "J1", "ab", "x_", "k0"]
+
+
+def _spell_names(chars):
+    out = []
+    for n in (1, 2, 3):
+        for t in itertools.product(chars, repeat=n):
+            w = "".join(t)
+            if not w.isdigit():
+                out.append(w)
+    return out
+
+
+SPELL_NAMES = {A: _spell_names(A) for A in SPELL_ALPHS}
+for _A in SPELL_ALPHS:
+    for _w in SPELL_NAMES[_A]:
+        if _w not in SYMS:
+            SYMS.append(_w)
+# exhaustive enumerations with multi-character names (0 first)
+SPELL_BLOCK = [["0", "1", "1*g", "1*g1", "1*gg"], ["0", "1", "1*J", "1*J1", "1*J11"], ["0", "2", "1*g", "1*gg", "2*ggg"],
+               ["0", "1", "1*ab", "1*a", "1*b"], ["0", "1*x", "1*x_", "1*_x", "-1*_"], ["0", "1", "1*k", "1*k0", "1*k00"]]
 FULL = ["0", "1", "-1", "2", "1/2", "1*a", "2*a", "1*b", "-1/3*b"]
 EXTRA = ["3", "-2/5", "5/7", "3*c", "-1*c", "1*d", "-4/3*a", "7/2*e"]
 # sub-alphabets for the exhaustive 3x3 / quick 2x3 enumerations (0 always first)
@@ -530,6 +556,13 @@ class C13(Prop):
             "related matrices up to 5x5: the same matrix again, 1-2 entries changed, entries replaced by hash twins (distinct "
             "rationals with equal Python hash: -1/-2, q/q +- (2^61-1)), scaled or swapped lines, the transpose, an earlier "
             "member again. "
+            "IDENTIFIER SPELLINGS (symbol names are arbitrary strings): symbol names = strings of length 1..3 over a 1-2 character "
+            "alphabet (g / g1 / J1 / ab / x_ / k0; names that are prefixes, suffixes, repetitions, concatenations of each other, "
+            "digit-only strings excluded): exhaustive 1x2, 2x1, 2x2 over six 5-letter alphabets such as {0, 1, g, g1, gg}, "
+            "{0, 1, J, J1, J11}, {0, x, x_, _x, -_} and 2x3 or 3x2 over one of them (seed-rotated; thorough: both shapes over all six); random "
+            "matrices up to 5x5 over 2..6 such names with planted lines: genuine multiples, and lines whose coefficients are "
+            "proportional to another line's while the symbols are rearranged within the line or drawn anew (not multiples: both "
+            "must be reproduced), as rows or as columns. "
             "non-trivial = at least 2 entries; distinct by case content. One case = one block, one matrix or one history; the number of "
             "matrices (calls) is in coverage.distribution.matrices")
     clauses = [
@@ -544,7 +577,9 @@ class C13(Prop):
               "in a history every call is compared with the (pure) model applied to the matrix of that call, i.e. the result may not "
               "depend on earlier calls"),
     ]
-    trusted_base = ["entry representation: Python Fraction / int 0 <-> Num q, tuple (Fraction, str) <-> Sym q s with symbols numbered by harness/props/c13.py",
+    trusted_base = ["entry representation: Python Fraction / int 0 <-> Num q, tuple (Fraction, str) <-> Sym q s with symbols numbered by harness/props/c13.py "
+                    "(one fixed injective table name -> nat for the 8 one-letter and the multi-character names; the model sees only the number, "
+                    "i.e. it is by construction independent of how a symbol is spelled)",
                     "`for z in sorted(Z, reverse=True): del x[z]` is modelled as dropping the positions in Z (equal because Z is duplicate-free by construction of the loops)",
                     "decoders of block cases (decode in c13.py / decode_mat in SGE/Model.v) — a disagreement shows up as a tie failure"]
     assumptions = ["input entries are Fractions or tuples (Fraction, non-empty str) with non-zero coefficient, matrix rectangular and non-empty "
@@ -609,6 +644,73 @@ class C13(Prop):
             for row in M:
                 row[j] = Fraction(0)
         return {"kind": "mat", "rows": [[entry_str(e) for e in row] for row in M]}
+
+    # ------------------------------------------------------------------ identifier spellings
+    @staticmethod
+    def _spelling_matrix(rng, maxdim=5):
+        """A random matrix whose symbol names are 2..6 of the strings of length 1..3 over one tiny character alphabet
+        (so names are prefixes / suffixes / repetitions / concatenations of each other), with planted line relations:
+        genuinely parallel lines, and lines whose COEFFICIENTS are proportional to those of another line while the
+        symbols differ by position (symbols permuted within the line, or redrawn) -- such lines are not multiples of each
+        other and must both be reproduced by the product.  Rows or columns (the matrix is transposed half of the time)."""
+        A = rng.choice(SPELL_ALPHS)
+        pool = SPELL_NAMES[A]
+        short = [w for w in pool if len(w) <= 2]
+        names = list(dict.fromkeys(rng.sample(short, min(len(short), rng.randrange(1, 4)))
+                                   + rng.sample(pool, min(len(pool), rng.randrange(1, 4)))))
+        r = rng.randrange(2, maxdim + 1)
+        c = rng.randrange(1, maxdim + 1)
+        cos = [Fraction(1), Fraction(1), Fraction(1), Fraction(2), Fraction(-1), Fraction(1, 2), Fraction(3), Fraction(-2, 3)]
+        p = rng.choice([0.5, 0.8, 1.0])
+        psym = rng.choice([0.5, 0.75, 1.0])
+
+        def ent():
+            if rng.random() >= p:
+                return Fraction(0)
+            co = rng.choice(cos)
+            return (co, rng.choice(names)) if rng.random() < psym else co
+
+        def co_of(e):
+            return e[0] if isinstance(e, tuple) else e
+
+        def with_co(e, co):
+            return (co, e[1]) if isinstance(e, tuple) else co
+        M = [[ent() for _ in range(c)] for _ in range(r)]
+        fs = [Fraction(1), Fraction(1), Fraction(2), Fraction(-1, 2), Fraction(3), Fraction(-1)]
+        plant = []
+        for _ in range(rng.choice([1, 1, 2])):
+            i, j = rng.sample(range(r), 2)
+            f = rng.choice(fs)
+            w = rng.random()
+            if w < 0.2:            # a genuine multiple
+                M[j] = [with_co(e, f * co_of(e)) for e in M[i]]
+                plant.append("parallel")
+            elif w < 0.6:          # same coefficients (times f), the symbols of the line in a different arrangement
+                if rng.random() < 0.5:
+                    k = rng.randrange(1, c) if c > 1 else 0
+                    perm = [(q + k) % c for q in range(c)]
+                else:
+                    perm = list(range(c))
+                    rng.shuffle(perm)
+                # entry q: coefficient f * (coefficient of M[i][q]), kind and symbol of M[i][perm[q]] (a zero there: a number)
+                M[j] = [with_co(M[i][perm[q]], f * co_of(M[i][q])) if co_of(M[i][q]) != 0 else Fraction(0) for q in range(c)]
+                plant.append("coefficients proportional, symbols rearranged")
+            else:                  # same coefficients (times f), kind / symbol of every entry drawn anew
+                row = []
+                for q in range(c):
+                    co = f * co_of(M[i][q])
+                    if co == 0:
+                        row.append(Fraction(0))
+                    elif rng.random() < 0.3:
+                        row.append(with_co(M[i][q], co))
+                    else:
+                        row.append((co, rng.choice(names)) if rng.random() < psym else co)
+                M[j] = row
+                plant.append("coefficients proportional, symbols redrawn")
+        if rng.random() < 0.5:
+            M = [list(col) for col in zip(*M)]
+        return {"kind": "mat", "fam": "spelling " + repr(A), "plant": sorted(set(plant)),
+                "rows": [[entry_str(e) for e in row] for row in M]}
 
     # ------------------------------------------------------------------ histories
     @staticmethod
@@ -728,6 +830,26 @@ class C13(Prop):
         nm = ctx.scale(1500, 20000) * budget_scale
         for _ in range(nm):
             cases.append(self._random_matrix(rng))
+        # identifier spellings (own random stream): exhaustive small shapes over alphabets with multi-character symbol
+        # names that are prefixes / repetitions of each other, and random matrices with planted line relations
+        rs = ctx.rng(stream + "/spelling")
+        if stream == "main":
+            for al in SPELL_BLOCK:
+                for (r, c) in [(1, 2), (2, 1), (2, 2)]:
+                    cases += self._blocks(al, r, c, 625)
+            sb = [SPELL_BLOCK[rot % len(SPELL_BLOCK)]] if not ctx.thorough() else SPELL_BLOCK
+            shape = (ctx.seed // len(SPELL_BLOCK) + ctx.seed) % 2     # every (alphabet, shape) pair occurs within 12 seeds
+            for al in sb:
+                if ctx.thorough() or shape == 0:
+                    cases += self._blocks(al, 2, 3, 625)
+                if ctx.thorough() or shape == 1:
+                    cases += self._blocks(al, 3, 2, 625)
+        else:
+            al = SPELL_BLOCK[rot % len(SPELL_BLOCK)]
+            cases += self._blocks(al, 2, 2, 625)
+            cases += self._blocks(al, 2, 3, 625, lo=0, hi=625 * 5 * budget_scale)
+        for _ in range(ctx.scale(500, 8000) * budget_scale):
+            cases.append(self._spelling_matrix(rs))
         # histories use their own random stream: the cases above are the same as before for a given seed
         hist = self._histories(ctx, stream, budget_scale)
         if stream == "main":
@@ -748,8 +870,19 @@ class C13(Prop):
         c = Counter()
         for x in cases:
             if x["kind"] == "block":
-                c[f"exhaustive/block {x['r']}x{x['c']} over {len(x['alph'])} letters"] += x["count"]
+                multi = any("*" in s and len(s.split("*")[1]) > 1 for s in x["alph"])
+                c[f"exhaustive/block {x['r']}x{x['c']} over {len(x['alph'])} letters"
+                  + (" (multi-character symbol names)" if multi else "")] += x["count"]
                 c["matrices"] += x["count"]
+            elif x["kind"] == "mat" and x.get("fam", "").startswith("spelling"):
+                c["spelling/random matrices (names = strings of length 1..3 over a 1-2 character alphabet)"] += 1
+                c[f"spelling/{x['fam'][9:]}"] += 1
+                for pl in x.get("plant", []):
+                    c["spelling/planted: " + pl] += 1
+                syms = {s.split("*")[1] for row in x["rows"] for s in row if "*" in s}
+                if any(a != b and (a.startswith(b) or a.endswith(b)) for a in syms for b in syms):
+                    c["spelling/a name is a proper prefix or suffix of another name"] += 1
+                c["matrices"] += 1
             elif x["kind"] == "mat":
                 c[f"random {len(x['rows'])}x{len(x['rows'][0])}"] += 1
                 c["matrices"] += 1
